@@ -555,6 +555,10 @@ cpc_sketch_alloc<A> cpc_sketch_alloc<A>::deserialize(std::istream& is, uint64_t 
       kxp = read<double>(is);
       hip_est_accum = read<double>(is);
     }
+    if (!is.good()) throw std::runtime_error("error reading from std::istream");
+    if (!has_window) compressed.table_num_entries = num_coupons;
+    cpc_compressor<A>::check_compressed_sizes(lg_k, num_coupons, compressed.table_num_entries,
+        compressed.table_data_words, compressed.window_data_words);
     if (has_window) {
       compressed.window_data.resize(compressed.window_data_words);
       read(is, compressed.window_data.data(), compressed.window_data_words * sizeof(uint32_t));
@@ -563,7 +567,6 @@ cpc_sketch_alloc<A> cpc_sketch_alloc<A>::deserialize(std::istream& is, uint64_t 
       compressed.table_data.resize(compressed.table_data_words);
       read(is, compressed.table_data.data(), compressed.table_data_words * sizeof(uint32_t));
     }
-    if (!has_window) compressed.table_num_entries = num_coupons;
   }
   if (!is.good())
     throw std::runtime_error("error reading from std::istream");
@@ -647,17 +650,19 @@ cpc_sketch_alloc<A> cpc_sketch_alloc<A>::deserialize(const void* bytes, size_t s
       ptr += copy_from_mem(ptr, kxp);
       ptr += copy_from_mem(ptr, hip_est_accum);
     }
+    if (!has_window) compressed.table_num_entries = num_coupons;
+    cpc_compressor<A>::check_compressed_sizes(lg_k, num_coupons, compressed.table_num_entries,
+        compressed.table_data_words, compressed.window_data_words);
     if (has_window) {
-      compressed.window_data.resize(compressed.window_data_words);
       check_memory_size(ptr - base + (compressed.window_data_words * sizeof(uint32_t)), size);
+      compressed.window_data.resize(compressed.window_data_words);
       ptr += copy_from_mem(ptr, compressed.window_data.data(), compressed.window_data_words * sizeof(uint32_t));
     }
     if (has_table) {
-      compressed.table_data.resize(compressed.table_data_words);
       check_memory_size(ptr - base + (compressed.table_data_words * sizeof(uint32_t)), size);
+      compressed.table_data.resize(compressed.table_data_words);
       ptr += copy_from_mem(ptr, compressed.table_data.data(), compressed.table_data_words * sizeof(uint32_t));
     }
-    if (!has_window) compressed.table_num_entries = num_coupons;
   }
   if (ptr != static_cast<const char*>(bytes) + size) throw std::logic_error("deserialized size mismatch");
 
